@@ -666,3 +666,118 @@ Proof.
   - eexists; split; [right; left; reflexivity | reflexivity].
   - intros n [<-|[<-|[]]] j [].
 Qed.
+
+(* ------------------------------------------------------------------ C14 / DESIGN #20: verdicts of create_node *)
+(* A construction whose type check failed leaves nothing behind that changes a later verdict: the verdict of
+   create_node on a content depends only on the (immutable) nodes of its children. *)
+Section Verdict.
+  Variable D : decls.
+  Notation tc := (typecheck D).
+  Notation ar := (arity D).
+
+  Inductive verdict := VOk | VErr (e : err).
+  Definition verdict_of (x : state * result) : verdict := match snd x with Ok _ => VOk | Err e => VErr e end.
+
+  Definition args_exist (st : state) (c : content) : Prop := forall j, In j (snd (fst c)) -> has_id st j.
+
+  Lemma child_types_stable st st' l : wf st' -> ext st st' -> (forall j, In j l -> has_id st j) ->
+    child_types (tbl st') l = child_types (tbl st) l.
+  Proof.
+    intros W' X. induction l as [|i l IH]; intros H; simpl; [reflexivity|].
+    destruct (H i (or_introl eq_refl)) as [n [Hn En]].
+    destruct (find_id i (tbl st)) as [n0|] eqn:F; [|exfalso; exact (find_id_none _ _ F n Hn En)].
+    apply find_id_some in F. destruct F as [Hn0 En0].
+    pose proof (in_find_id (tbl st') n0 (wf_ids_nodup _ W') (proj1 X _ Hn0)) as F'. rewrite En0 in F'. rewrite F'.
+    rewrite IH by (intros j Hj; apply H; right; exact Hj). reflexivity.
+  Qed.
+
+  Lemma typecheck_stable st st' c : wf st' -> ext st st' -> args_exist st c ->
+    typecheck D (tbl st') c = typecheck D (tbl st) c.
+  Proof.
+    intros W' X A. destruct c as [[o l] p]. unfold typecheck.
+    rewrite (child_types_stable st st' l W' X A). reflexivity.
+  Qed.
+
+  (* every node of the table passed its type check *)
+  Definition typed (st : state) : Prop :=
+    forall n, In n (tbl st) -> exists t, typecheck D (tbl st) (content_of n) = TOk t.
+
+  Definition Inv2 (st : state) : Prop := Inv st /\ typed st.
+
+  Lemma create_node_typed st c : Inv2 st -> args_exist st c -> typed (fst (create_node tc st c)).
+  Proof.
+    intros [[W C] T] A.
+    pose proof (create_node_wf tc st c W) as W1. pose proof (create_node_ext tc st c) as X.
+    destruct (create_node_cases tc st c) as [[n [_ E]] | [[_ [t [Tc E]]] | [_ [e [_ E]]]]]; rewrite E in *; simpl in *.
+    - exact T.
+    - intros n Hn. apply in_app_iff in Hn. destruct Hn as [Hn|[<-|[]]].
+      + destruct (T n Hn) as [t0 Ht]. exists t0. rewrite <- Ht.
+        apply (typecheck_stable st _ (content_of n) W1 X). intros j Hj. apply (proj2 (proj2 C) n Hn j Hj).
+      + exists t. rewrite content_of_mk. rewrite <- Tc. apply (typecheck_stable st _ c W1 X A).
+    - intros n Hn. destruct (T n Hn) as [t0 Ht]. exists t0. rewrite <- Ht.
+      apply (typecheck_stable st _ (content_of n) W1 X). intros j Hj. apply (proj2 (proj2 C) n Hn j Hj).
+  Qed.
+
+  Lemma create_node_inv2 st c : Inv2 st -> args_exist st c -> Inv2 (fst (create_node tc st c)).
+  Proof.
+    intros I A. split; [|apply create_node_typed; assumption].
+    destruct I as [[W C] _]. split; [apply create_node_wf; exact W | apply create_node_closed; assumption].
+  Qed.
+
+  Lemma exec_inv2 st p : Inv2 st -> (forall c, p = PCreate c -> args_exist st c) -> Inv2 (fst (exec tc st p)).
+  Proof.
+    intros I H. destruct p as [j|c|e]; simpl; [exact I | | exact I]. apply create_node_inv2; [exact I | exact (H c eq_refl)].
+  Qed.
+
+  Lemma promote_inv2 st a : Inv2 st -> Inv2 (fst (promote tc ar st a)).
+  Proof.
+    intros I. rewrite promote_exec. apply exec_inv2; [exact I|].
+    intros c E j Hj. rewrite (pplan_args _ _ _ _ E) in Hj. destruct Hj.
+  Qed.
+
+  Lemma promote_list_inv2 l : forall st, Inv2 st -> Inv2 (fst (promote_list tc ar st l)).
+  Proof.
+    induction l as [|a l IH]; intros st I; simpl; [exact I|].
+    pose proof (promote_inv2 st a I) as Ia.
+    destruct (promote tc ar st a) as [sa [ia|e]]; simpl in *; [|exact Ia].
+    pose proof (IH sa Ia) as Il. destruct (promote_list tc ar sa l) as [s2 [is|e]]; exact Il.
+  Qed.
+
+  Lemma step_inv2 st k : Inv2 st -> Inv2 (fst (step tc ar st k)).
+  Proof.
+    intros I. unfold step. pose proof (promote_list_inv2 (call_args k) st I) as I1.
+    destruct (promote_list tc ar st (call_args k)) as [s1 [is|e]] eqn:P; simpl in *; [|exact I1].
+    pose proof (promote_list_ok tc ar _ _ _ _ (proj1 I) P) as F.
+    apply exec_inv2; [exact I1|]. intros c E j Hj. rewrite Forall_forall in F. apply F.
+    exact (plan_args ar _ _ _ _ E j Hj).
+  Qed.
+
+  Lemma run_inv2 ks : forall st, Inv2 st -> Inv2 (run tc ar st ks).
+  Proof. induction ks as [|k ks IH]; intros st I; simpl; [exact I | apply IH, step_inv2; exact I]. Qed.
+
+  Lemma init_inv2 : Inv2 (init tc).
+  Proof.
+    split; [apply init_inv|]. unfold init, create_node; simpl.
+    intros n [<-|[<-|[]]]; simpl; eexists; reflexivity.
+  Qed.
+
+  Theorem create_node_history_independent st ks c : Inv2 st -> args_exist st c ->
+    verdict_of (create_node tc (run tc ar st ks) c) = verdict_of (create_node tc st c).
+  Proof.
+    intros I A. pose proof (run_inv2 ks st I) as [[W' C'] T']. pose proof (run_ext tc ar ks st) as X.
+    destruct I as [[W C] T].
+    pose proof (typecheck_stable st _ c W' X A) as TS.
+    destruct (create_node_cases tc st c) as [[n [F E]] | [[F [t [Tc E]]] | [F [e [Tc E]]]]]; rewrite E; unfold verdict_of at 2; simpl.
+    - apply find_content_some in F. destruct F as [Hn <-].
+      rewrite (create_node_found tc _ n W' (proj1 X _ Hn)). reflexivity.
+    - destruct (create_node_cases tc (run tc ar st ks) c) as [[n' [_ E']] | [[_ [t' [_ E']]] | [_ [e' [Tc' E']]]]];
+        rewrite E'; unfold verdict_of; simpl; try reflexivity.
+      rewrite TS, Tc in Tc'. discriminate.
+    - destruct (create_node_cases tc (run tc ar st ks) c) as [[n' [F' E']] | [[_ [t' [Tc' E']]] | [_ [e' [Tc' E']]]]];
+        rewrite E'; unfold verdict_of; simpl.
+      + apply find_content_some in F'. destruct F' as [Hn' Cn']. destruct (T' n' Hn') as [t0 Ht0].
+        rewrite Cn', TS, Tc in Ht0. discriminate.
+      + rewrite TS, Tc in Tc'. discriminate.
+      + rewrite TS, Tc in Tc'. inversion Tc'. reflexivity.
+  Qed.
+End Verdict.
